@@ -1,5 +1,6 @@
 import TeaalVerif.Driver.Util
 import TeaalVerif.Metrics.Time
+import TeaalVerif.Metrics.Arch
 open Lean
 namespace Driver
 open Time
@@ -35,5 +36,24 @@ def timeExpr (j : Json) : Except String Json := do
       | none => false
     return Json.mkObj [("model", m.gen), ("agree", beqExpr m actual), ("once", once),
                        ("model_once", decide ((leaves t).Perm registered))]
+
+/-- the architecture tree of one configuration as written: {"name": bare name, "last": N or null, "locals": [..], "subs": [..]} -/
+partial def archTree (j : Json) : Except String Arch.Tree := do
+  let name ← (← fld j "name").getStr?
+  let last : Option Nat := match j.getObjVal? "last" with
+    | .ok v => (v.getNat?).toOption
+    | .error _ => none
+  let locals ← strList (← fld j "locals")
+  let subs ← (← HF.arr (← fld j "subs")).toList.mapM archTree
+  return .node ⟨name, last⟩ locals subs
+
+/-- op `arch_instances`: the dictionary of instance counts the model builds for one configuration (Arch.instances for every
+name assigned), and whether the names are distinct (the hypothesis of C14.instances_of_local) -/
+def archInstances (j : Json) : Except String Json := do
+  let t ← archTree (← fld j "tree")
+  let asg := Arch.assigns t
+  let names := (asg.map Prod.fst).eraseDups
+  let table := names.map fun c => Json.arr #[Json.str c, match Arch.instances t c with | some n => Json.num n | none => Json.null]
+  return Json.mkObj [("instances", Json.arr table.toArray), ("distinct", decide ((asg.map Prod.fst).Nodup))]
 
 end Driver
